@@ -942,7 +942,15 @@ def key_form(form: str) -> str:
     return form
 
 
+def _contains_form(e: E, form: str) -> bool:
+    return key_form(e.form) == form or any(_contains_form(k, form) for k in e.kids)
+
+
 def ann_key(e: E, o: dict) -> str:
+    if _contains_form(e, "Annotated.non-literal-metadata"):
+        # the routes that do or do not keep such metadata split the same way whatever is built around it (type[..] of
+        # it, a union with it): one mechanism, the partition tells a different split apart
+        return f"ann|Annotated.non-literal-metadata|{partition_text(o)}"
     essential = [key_form(k.form) for k in e.kids if k.src not in (INT.src, STR.src)]
     with_ = f"[{'+'.join(sorted(set(essential)))}]" if essential else ""
     return f"ann|{key_form(e.form)}{with_}|{partition_text(o)}"
@@ -2010,8 +2018,8 @@ def gen_twin(ctx):
 
     def emit(e):
         nonlocal n
-        if e.src in seen or context_of(e) != "param":
-            return None
+        if e.src in seen or context_of(e) != "param" or _contains_form(e, "Annotated.non-literal-metadata"):
+            return None  # (what the routes do with object metadata is part 1's business, not a matter of whose name)
         seen.add(e.src)
         n += 1
         return (e, HISTORIES[n % len(HISTORIES)])
